@@ -15,7 +15,11 @@ Obligations, all taken from the property text:
 Because reader and writer of a record are one and the same rw-routine, a round trip cannot see the ORDER in which a
 record lists its numbers; where the module documentation (or the CCCC-IV text it quotes) states that order, the bytes
 of one record are compared with it as well (ISOTXS/GAMISO scatter sub-blocks and record offsets LOCA, NHFLUX flux and
-current records, COMPXS scatter segments).
+current records, COMPXS scatter segments, RZFLUX flux blocks), and the number and length of the records is compared
+with what the header integers announce (NHFLUX, LABELS, DIF3D, RZFLUX).
+The scipy.sparse constructors the ISOTXS and COMPXS readers call are wrapped by a validity check of the index arrays:
+scipy does not check them, and a reader that computes a column index outside the matrix would otherwise corrupt the
+heap and kill the worker process (which the check script reports as an aborted path, not as a violation).
 
 Candidate genuine defects met on the unchanged tree are guarded by module-level flags KNOWN_DEFECT_* (search for them:
 fixsrc_reader_never_allocates, gamiso_label_becomes_isotxs, isotxs_subblocked_scatter_unreadable,
